@@ -453,7 +453,9 @@ func (hs *clientHandshakeState) doFullHandshake() error {
 		//
 		// 特别的：ECDHE系列套件出签名证书外，还需要客户端额外发送加密证书
 		// 加密证书将用于SM2密钥交换协商密钥。
-		if clientEncCert != nil && len(clientEncCert.Certificate) > 0 {
+		// 加密证书只能跟在签名证书之后：证书列表的第一张证书由服务端当作认证证书，
+		// 并要求随后的证书验证消息；没有签名证书时发送空的证书列表。
+		if len(certMsg.certificates) > 0 && clientEncCert != nil && len(clientEncCert.Certificate) > 0 {
 			certMsg.certificates = append(certMsg.certificates, clientEncCert.Certificate[0])
 		}
 
